@@ -396,11 +396,11 @@ class Facade:
 
     def min(self, a, axis=None, **k):
         r = self._extreme(a, axis, True)
-        return np.min(a, axis=axis, **k) if r is None else r[1]
+        return np.min(np.asarray(a).view(np.ndarray) if isinstance(a, np.ndarray) else a, axis=axis, **k) if r is None else r[1]
 
     def max(self, a, axis=None, **k):
         r = self._extreme(a, axis, False)
-        return np.max(a, axis=axis, **k) if r is None else r[1]
+        return np.max(np.asarray(a).view(np.ndarray) if isinstance(a, np.ndarray) else a, axis=axis, **k) if r is None else r[1]
 
     amin = min
     amax = max
